@@ -37,6 +37,7 @@ func init() {
 	modelTable["strings.ToLower"] = strUF("strings.ToLower", false)
 	modelTable["strings.ToUpper"] = strUF("strings.ToUpper", false)
 	modelTable["path/filepath.ToSlash"] = toSlash
+	initBigModels()
 }
 
 func (e *Engine) model(st *State, fr *Frame, callee *ssa.Function, args []Val, at ssa.Instruction) ([]Val, bool) {
@@ -117,3 +118,128 @@ func toSlash(e *Engine, st *State, fr *Frame, callee *ssa.Function, args []Val, 
 }
 
 var _ = fmt.Sprintf
+
+// ---------------------------------------------------------------- math/big (assumed contracts)
+// *big.Int is modelled by a ghost mathematical integer "math/big.Int|$val"[ref].
+
+const bigValArr = "math/big.Int|$val"
+
+func bigGet(st *State, ref *Term) *Term {
+	return st.norm(Select(st.heap.get(bigValArr, ArrSort(SInt)), ref))
+}
+
+func bigSet(st *State, ref, v *Term) {
+	st.heap.arr[bigValArr] = Store(st.heap.get(bigValArr, ArrSort(SInt)), ref, v)
+}
+
+func pow2Term(st *State, k *Term) *Term {
+	k = st.norm(k)
+	if c, ok := k.ConstInt(); ok && c >= 0 && c <= 4096 {
+		return pow2(c)
+	}
+	return App("pow2", SInt, k)
+}
+
+func initBigModels() {
+	defer func() {
+		for k := range modelTable {
+			if strings.HasPrefix(k, "(*math/big.Int).") || k == "math/big.NewInt" {
+				modelWrites[k] = bigValArr
+			}
+		}
+	}()
+	bin := func(f func(a, b *Term) *Term) modelFn {
+		return func(e *Engine, st *State, fr *Frame, callee *ssa.Function, args []Val, at ssa.Instruction) []Val {
+			z, x, y := args[0][0], args[1][0], args[2][0]
+			e.nilCheck(st, z, at.Pos(), "big")
+			e.nilCheck(st, x, at.Pos(), "big")
+			e.nilCheck(st, y, at.Pos(), "big")
+			bigSet(st, z, f(bigGet(st, x), bigGet(st, y)))
+			return []Val{{z}}
+		}
+	}
+	modelTable["(*math/big.Int).Add"] = bin(Add)
+	modelTable["(*math/big.Int).Sub"] = bin(Sub)
+	modelTable["(*math/big.Int).Mul"] = bin(Mul)
+	// Quo/Rem truncate toward zero; Div/Mod are Euclidean (math/big documentation)
+	div := func(f func(a, b *Term) *Term) modelFn {
+		return func(e *Engine, st *State, fr *Frame, callee *ssa.Function, args []Val, at ssa.Instruction) []Val {
+			z, x, y := args[0][0], args[1][0], args[2][0]
+			e.oblige(st, e.safetyName("big-div-by-zero"), "safety", at.Pos(), Ne(bigGet(st, y), IntC(0)))
+			bigSet(st, z, f(bigGet(st, x), bigGet(st, y)))
+			return []Val{{z}}
+		}
+	}
+	modelTable["(*math/big.Int).Quo"] = div(TQuo)
+	modelTable["(*math/big.Int).Rem"] = div(TRem)
+	modelTable["(*math/big.Int).Div"] = div(EDiv)
+	modelTable["(*math/big.Int).Mod"] = div(EMod)
+	un := func(f func(a *Term) *Term) modelFn {
+		return func(e *Engine, st *State, fr *Frame, callee *ssa.Function, args []Val, at ssa.Instruction) []Val {
+			z, x := args[0][0], args[1][0]
+			e.nilCheck(st, z, at.Pos(), "big")
+			e.nilCheck(st, x, at.Pos(), "big")
+			bigSet(st, z, f(bigGet(st, x)))
+			return []Val{{z}}
+		}
+	}
+	modelTable["(*math/big.Int).Neg"] = un(Neg)
+	modelTable["(*math/big.Int).Set"] = un(func(a *Term) *Term { return a })
+	modelTable["(*math/big.Int).Abs"] = un(func(a *Term) *Term { return Ite(Lt(a, IntC(0)), Neg(a), a) })
+	modelTable["(*math/big.Int).Lsh"] = func(e *Engine, st *State, fr *Frame, callee *ssa.Function, args []Val, at ssa.Instruction) []Val {
+		z, x, n := args[0][0], args[1][0], args[2][0]
+		e.nilCheck(st, z, at.Pos(), "big")
+		bigSet(st, z, Mul(bigGet(st, x), pow2Term(st, n)))
+		return []Val{{z}}
+	}
+	modelTable["(*math/big.Int).Rsh"] = func(e *Engine, st *State, fr *Frame, callee *ssa.Function, args []Val, at ssa.Instruction) []Val {
+		z, x, n := args[0][0], args[1][0], args[2][0]
+		bigSet(st, z, EDiv(bigGet(st, x), pow2Term(st, n)))
+		return []Val{{z}}
+	}
+	modelTable["math/big.NewInt"] = func(e *Engine, st *State, fr *Frame, callee *ssa.Function, args []Val, at ssa.Instruction) []Val {
+		id := IntC(newObjID())
+		bigSet(st, id, args[0][0])
+		return []Val{{id}}
+	}
+	modelTable["(*math/big.Int).SetInt64"] = func(e *Engine, st *State, fr *Frame, callee *ssa.Function, args []Val, at ssa.Instruction) []Val {
+		bigSet(st, args[0][0], args[1][0])
+		return []Val{{args[0][0]}}
+	}
+	modelTable["(*math/big.Int).SetUint64"] = modelTable["(*math/big.Int).SetInt64"]
+	modelTable["(*math/big.Int).Cmp"] = func(e *Engine, st *State, fr *Frame, callee *ssa.Function, args []Val, at ssa.Instruction) []Val {
+		e.nilCheck(st, args[0][0], at.Pos(), "big")
+		e.nilCheck(st, args[1][0], at.Pos(), "big")
+		a, b := bigGet(st, args[0][0]), bigGet(st, args[1][0])
+		return []Val{{Ite(Lt(a, b), IntC(-1), Ite(Eq(a, b), IntC(0), IntC(1)))}}
+	}
+	modelTable["(*math/big.Int).Sign"] = func(e *Engine, st *State, fr *Frame, callee *ssa.Function, args []Val, at ssa.Instruction) []Val {
+		e.nilCheck(st, args[0][0], at.Pos(), "big")
+		a := bigGet(st, args[0][0])
+		return []Val{{Ite(Lt(a, IntC(0)), IntC(-1), Ite(Eq(a, IntC(0)), IntC(0), IntC(1)))}}
+	}
+	modelTable["(*math/big.Int).IsInt64"] = func(e *Engine, st *State, fr *Frame, callee *ssa.Function, args []Val, at ssa.Instruction) []Val {
+		a := bigGet(st, args[0][0])
+		return []Val{{inRange(a, types.Typ[types.Int64])}}
+	}
+	modelTable["(*math/big.Int).IsUint64"] = func(e *Engine, st *State, fr *Frame, callee *ssa.Function, args []Val, at ssa.Instruction) []Val {
+		a := bigGet(st, args[0][0])
+		return []Val{{inRange(a, types.Typ[types.Uint64])}}
+	}
+	modelTable["(*math/big.Int).Int64"] = func(e *Engine, st *State, fr *Frame, callee *ssa.Function, args []Val, at ssa.Instruction) []Val {
+		return []Val{{wrapTo(bigGet(st, args[0][0]), types.Typ[types.Int64])}}
+	}
+	modelTable["(*math/big.Int).Uint64"] = func(e *Engine, st *State, fr *Frame, callee *ssa.Function, args []Val, at ssa.Instruction) []Val {
+		return []Val{{wrapTo(bigGet(st, args[0][0]), types.Typ[types.Uint64])}}
+	}
+	modelTable["(*math/big.Int).BitLen"] = func(e *Engine, st *State, fr *Frame, callee *ssa.Function, args []Val, at ssa.Instruction) []Val {
+		r := App("bitlen", SInt, bigGet(st, args[0][0]))
+		st.assume(Le(IntC(0), r))
+		return []Val{{r}}
+	}
+	modelTable["(*math/big.Int).String"] = func(e *Engine, st *State, fr *Frame, callee *ssa.Function, args []Val, at ssa.Instruction) []Val {
+		r := App("decimal_text", SInt, bigGet(st, args[0][0]))
+		st.assume(Le(IntC(0), r))
+		return []Val{{r}}
+	}
+}
